@@ -76,10 +76,63 @@ def isInstanceUuid : PyVal → Bool | .atom (.uuid _) => true | _ => false
 def asInt : PyVal → Option Int
   | .atom (.int i) => some i | .atom (.bool b) => some (if b then 1 else 0) | _ => none
 
+/-- The element class of a sequence column, resolved through its MRO. -/
+structure ElemSpec where
+  buildChain : List String
+  validateChain : List String
+  enumCls : Option String
+  minV : Option Int
+  maxV : Option Int
+  deriving Repr, BEq, DecidableEq, Inhabited
+
+/-- Everything method resolution decides about a class, computed once from the
+    class table: which `build` / `validate` method it inherits, its null
+    dictionary, the `super()` chains of the three hooks and the constant hooks.
+    All execution below is a function of this record; the theorems about
+    column types are stated over such records, and a `decide` obligation ties
+    each class of the generated table to the record the theorem is about. -/
+structure ColSpec where
+  cls : String
+  mro : List String
+  buildMethod : Option String
+  validateMethod : Option String
+  nullDict : Option (List (String × NullVal))
+  buildChain : List String
+  validateChain : List String
+  stringChain : List String
+  enumCls : Option String
+  minV : Option Int
+  maxV : Option Int
+  elem : Option ElemSpec
+  deriving Repr, BEq, DecidableEq, Inhabited
+
+def resolveElem (tbl : ClassTable) (ec : String) : Option ElemSpec :=
+  (mroOf tbl ec).map (fun em =>
+    { buildChain := hookChain tbl em "__build__"
+      validateChain := hookChain tbl em "__validate__"
+      enumCls := firstConst tbl em (·.enumCls)
+      minV := (firstConst tbl em (·.minV)).join
+      maxV := (firstConst tbl em (·.maxV)).join })
+
+def resolveSpec (tbl : ClassTable) (cls : String) : Option ColSpec :=
+  (mroOf tbl cls).map (fun m =>
+    { cls := cls
+      mro := m
+      buildMethod := (hookChain tbl m "build").head?
+      validateMethod := (hookChain tbl m "validate").head?
+      nullDict := (firstConst tbl m (·.nullDict)).join
+      buildChain := hookChain tbl m "__build__"
+      validateChain := hookChain tbl m "__validate__"
+      stringChain := hookChain tbl m "__string_it__"
+      enumCls := firstConst tbl m (·.enumCls)
+      minV := (firstConst tbl m (·.minV)).join
+      maxV := (firstConst tbl m (·.maxV)).join
+      elem := (firstConst tbl m (·.elemCls)).bind (resolveElem tbl) })
+
 /-- Run the `__build__` chain of a non-sequence class on a text.
-    `m` is the MRO of the class the hook is called on (for `cls.__enum_class__()`),
+    `enumCls` is `cls.__enum_class__()` of the class the hook is called on,
     `chain` the definers of `__build__` from the current `super()` position on. -/
-def runBuildAtom (C : Ctx) (m : List String) : List String → Text → Except PyErr Atom
+def runBuildAtom (C : Ctx) (enumCls : Option String) : List String → Text → Except PyErr Atom
   | [], _ => .error .attribute
   | c :: rest, t =>
     if c = "MafCustomColumnRecord" then .ok .none
@@ -103,7 +156,7 @@ def runBuildAtom (C : Ctx) (m : List String) : List String → Text → Except P
       | some f => .ok (.float f)
       | none => .error .value
     else if c = "EnumColumn" then
-      match firstConst C.tbl m (·.enumCls) with
+      match enumCls with
       | none => .error .type
       | some ec => match enumLookup C.enums ec t with
         | some mem => .ok (.enum ec mem)
@@ -117,32 +170,31 @@ def runBuildAtom (C : Ctx) (m : List String) : List String → Text → Except P
       else if u = "FALSE".toList then .ok (.bool false)
       else .error .value
     else if c = "NullableYesOrNo" ∨ c = "NullableYOrN" ∨ c = "PickColumn" then
-      runBuildAtom C m rest (pyCapitalize t)
-    else if c = "YesNoOrUnknown" then runBuildAtom C m rest t
+      runBuildAtom C enumCls rest (pyCapitalize t)
+    else if c = "YesNoOrUnknown" then runBuildAtom C enumCls rest t
     else if c = "UUIDColumn" then
       match pyUuid t with
       | some n => .ok (.uuid n)
       | none => .error .value
     else .error (.unmodelled ("__build__ of " ++ c))
 
-def runBuild (C : Ctx) (m : List String) (chain : List String) (t : Text) : Except PyErr PyVal :=
-  match chain with
+/-- `cls.__build__(text)` -/
+def runBuild (C : Ctx) (sp : ColSpec) (t : Text) : Except PyErr PyVal :=
+  match sp.buildChain with
   | c :: _ =>
     if c = "SequenceOfValuesColumn" then
-      match firstConst C.tbl m (·.elemCls) with
+      match sp.elem with
       | none => .error .attribute
-      | some ec => match mroOf C.tbl ec with
-        | none => .error (.unmodelled "element class")
-        | some em =>
-          match (splitOn ';' t).mapM (runBuildAtom C em (hookChain C.tbl em "__build__")) with
-          | .ok xs => .ok (.list xs)
-          | .error e => .error e
-    else (runBuildAtom C m chain t).map PyVal.atom
+      | some es =>
+        match (splitOn ';' t).mapM (runBuildAtom C es.enumCls es.buildChain) with
+        | .ok xs => .ok (.list xs)
+        | .error e => .error e
+    else (runBuildAtom C sp.enumCls sp.buildChain t).map PyVal.atom
   | [] => .error .attribute
 
 /-- Run a `__validate__` chain; `true` = a message was returned (invalid).
     `elemInvalid` is the element validator of a sequence class. -/
-def runValidate (C : Ctx) (elemInvalid : Atom → Bool) (m : List String) :
+def runValidate (enumCls : Option String) (minV maxV : Option Int) (elemInvalid : Atom → Bool) :
     List String → PyVal → Bool
   | [], _ => false
   | c :: rest, v =>
@@ -150,7 +202,7 @@ def runValidate (C : Ctx) (elemInvalid : Atom → Bool) (m : List String) :
     else if c = "RequireNullValue" then true
     else if c = "NullableStringColumn" then !isInstanceStr v
     else if c = "StringColumn" then
-      if runValidate C elemInvalid m rest v then true else !v.truthy
+      if runValidate enumCls minV maxV elemInvalid rest v then true else !v.truthy
     else if c = "StringIntegerOrFloatColumn" then
       !(isInstanceInt v || isInstanceFloat v || isInstanceStr v)
     else if c = "StringOrIntegerColumn" then !(isInstanceInt v || isInstanceStr v)
@@ -158,11 +210,11 @@ def runValidate (C : Ctx) (elemInvalid : Atom → Bool) (m : List String) :
       match asInt v with
       | none => true
       | some i =>
-        (match (firstConst C.tbl m (·.minV)).join with | some lo => decide (i < lo) | none => false) ||
-        (match (firstConst C.tbl m (·.maxV)).join with | some hi => decide (hi < i) | none => false)
+        (match minV with | some lo => decide (i < lo) | none => false) ||
+        (match maxV with | some hi => decide (hi < i) | none => false)
     else if c = "FloatColumn" then !isInstanceFloat v
     else if c = "EnumColumn" then
-      match firstConst C.tbl m (·.enumCls), v with
+      match enumCls, v with
       | some ec, .atom (.enum vc _) => vc != ec
       | _, _ => true
     else if c = "SequenceOfValuesColumn" then
@@ -175,7 +227,7 @@ def runValidate (C : Ctx) (elemInvalid : Atom → Bool) (m : List String) :
       | .atom (.str s) => if s = ['-'] then false else !s.all (fun b => b = 'A' || b = 'C' || b = 'G' || b = 'T')
       | _ => true
     else if c = "DnaString" then
-      if runValidate C elemInvalid m rest v then true else !v.truthy
+      if runValidate enumCls minV maxV elemInvalid rest v then true else !v.truthy
     else if c = "Canonical" ∨ c = "BooleanColumn" then !isInstanceBool v
     else if c = "UUIDColumn" then !isInstanceUuid v
     else if c = "TranscriptStrand" then
@@ -184,46 +236,72 @@ def runValidate (C : Ctx) (elemInvalid : Atom → Bool) (m : List String) :
       | some i => !(i = -1 || i = 1)
     else true   -- unknown hook body: treated as rejecting (never reached on the generated table)
 
-/-- the constant hooks of a class, resolved through its MRO -/
-def nullDictOf (C : Ctx) (m : List String) : Option (List (String × NullVal)) :=
-  (firstConst C.tbl m (·.nullDict)).join
-
-def nullValuesOf (C : Ctx) (m : List String) : List PyVal :=
-  match nullDictOf C m with
+def ColSpec.nullValues (sp : ColSpec) : List PyVal :=
+  match sp.nullDict with
   | some d => d.map (·.2.toPy)
   | none => []
 
 /-- `self.value in nullable_values` -/
-def isNullValue (C : Ctx) (m : List String) (v : PyVal) : Bool :=
-  (nullValuesOf C m).any (fun n => n.pyEq v)
+def ColSpec.isNullValue (sp : ColSpec) (v : PyVal) : Bool :=
+  sp.nullValues.any (fun n => n.pyEq v)
 
 /-- the element validator `column_cls("", value).__validate__()` of a sequence class -/
-def elemInvalidOf (C : Ctx) (m : List String) : Atom → Bool :=
-  match firstConst C.tbl m (·.elemCls) with
+def ColSpec.elemInvalid (sp : ColSpec) : Atom → Bool :=
+  match sp.elem with
   | none => fun _ => true
-  | some ec => match mroOf C.tbl ec with
-    | none => fun _ => true
-    | some em => fun a => runValidate C (fun _ => true) em (hookChain C.tbl em "__validate__") (.atom a)
+  | some es => fun a => runValidate es.enumCls es.minV es.maxV (fun _ => true) es.validateChain (.atom a)
 
 /-- `__string_it__` -/
-def runString (C : Ctx) (_m : List String) (chain : List String) (v : PyVal) : Except PyErr Text :=
+def runString (E : Enums) (chain : List String) (v : PyVal) : Except PyErr Text :=
   match chain with
   | [] => .error .attribute
   | c :: _ =>
-    if c = "MafColumnRecord" then pyStr C.enums v
+    if c = "MafColumnRecord" then pyStr E v
     else if c = "EnumColumn" then
       match v with
-      | .atom (.enum ec mem) => match enumValue C.enums ec mem with
+      | .atom (.enum ec mem) => match enumValue E ec mem with
         | some t => .ok t
         | none => .error (.unmodelled "enum member")
       | _ => .error .attribute
     else if c = "SequenceOfValuesColumn" then
       match v with
-      | .list xs => (xs.mapM (atomStr C.enums)).map (joinWith ';')
-      | .tuple xs => (xs.mapM (atomStr C.enums)).map (joinWith ';')
+      | .list xs => (xs.mapM (atomStr E)).map (joinWith ';')
+      | .tuple xs => (xs.mapM (atomStr E)).map (joinWith ';')
       | _ => .error (.unmodelled "join over non-sequence")
     else if c = "Canonical" then .ok (if v.truthy then "YES".toList else [])
     else .error (.unmodelled ("__string_it__ of " ++ c))
+
+/-- `str(column)` (`MafColumnRecord.__str__`) on a resolved class -/
+def ColSpec.render (E : Enums) (sp : ColSpec) (v : PyVal) : Except PyErr Text :=
+  let keys := match sp.nullDict with
+    | some d => (d.filter (fun p => p.2.toPy.pyEq v)).map (·.1)
+    | none => []
+  match keys with
+  | k :: _ => if keys.contains "" then .ok [] else .ok k.toList
+  | [] => runString E sp.stringChain v
+
+/-- `cls.build(name, text)` value part.  `.inl v`: a column of this class with value `v`;
+    `.inr ()`: the class inherits `MafColumnRecord.build`, which returns a plain
+    `MafColumnRecord` carrying the text. -/
+def ColSpec.buildValue (C : Ctx) (sp : ColSpec) (t : Text) : Except PyErr (PyVal ⊕ Unit) :=
+  match sp.buildMethod with
+  | some "MafCustomColumnRecord" =>
+    match sp.nullDict.bind (fun d => List.find? (fun p => p.1.toList == t) d) with
+    | some p => .ok (.inl p.2.toPy)
+    | none =>
+      match runBuild C sp t with
+      | .ok v => .ok (.inl v)
+      | .error e => .error e
+  | some "MafColumnRecord" => .ok (.inr ())
+  | _ => .error .attribute
+
+/-- the value-level part of `column.validate()`: `true` = RECORD_COLUMN_WRONG_FORMAT -/
+def ColSpec.valueInvalid (sp : ColSpec) (v : PyVal) : Bool :=
+  match sp.validateMethod with
+  | some "MafCustomColumnRecord" =>
+    if sp.isNullValue v then false
+    else runValidate sp.enumCls sp.minV sp.maxV sp.elemInvalid sp.validateChain v
+  | _ => false
 
 /-- A column object: its class, name, value and `column_index`. -/
 structure Column where
@@ -233,49 +311,26 @@ structure Column where
   index : Option Int
   deriving Repr, BEq, DecidableEq, Inhabited
 
-/-- `str(column)` (`MafColumnRecord.__str__`) -/
 def Column.render (C : Ctx) (col : Column) : Except PyErr Text :=
-  match mroOf C.tbl col.cls with
+  match resolveSpec C.tbl col.cls with
   | none => .error (.unmodelled "class")
-  | some m =>
-    let keys := match nullDictOf C m with
-      | some d => (d.filter (fun p => p.2.toPy.pyEq col.value)).map (·.1)
-      | none => []
-    match keys with
-    | k :: _ => if keys.contains "" then .ok [] else .ok k.toList
-    | [] => runString C m (hookChain C.tbl m "__string_it__") col.value
+  | some sp => sp.render C.enums col.value
 
-/-- `cls.build(name, text, column_index)` without a scheme: the class's `build`
-    is `MafCustomColumnRecord.build` or (for classes that are not custom column
-    records) `MafColumnRecord.build`, which returns a plain `MafColumnRecord`. -/
+/-- `cls.build(name, text, column_index)` without a scheme -/
 def buildColumn (C : Ctx) (cls : String) (key : Text) (t : Text) (index : Option Int) :
     Except PyErr Column :=
-  match mroOf C.tbl cls with
+  match resolveSpec C.tbl cls with
   | none => .error (.unmodelled "class")
-  | some m =>
-    match (hookChain C.tbl m "build").head? with
-    | some "MafCustomColumnRecord" =>
-      match (nullDictOf C m).bind (fun d => List.find? (fun p => p.1.toList == t) d) with
-      | some p => .ok { cls := cls, key := key, value := p.2.toPy, index := index }
-      | none =>
-        match runBuild C m (hookChain C.tbl m "__build__") t with
-        | .ok v => .ok { cls := cls, key := key, value := v, index := index }
-        | .error e => .error e
-    | some "MafColumnRecord" =>
-      .ok { cls := "MafColumnRecord", key := key, value := .atom (.str t), index := index }
-    | _ => .error .attribute
+  | some sp =>
+    match sp.buildValue C t with
+    | .ok (.inl v) => .ok { cls := cls, key := key, value := v, index := index }
+    | .ok (.inr ()) => .ok { cls := "MafColumnRecord", key := key, value := .atom (.str t), index := index }
+    | .error e => .error e
 
-/-- the value-level part of `column.validate()`: `true` = RECORD_COLUMN_WRONG_FORMAT
-    was reported for the value -/
 def Column.valueInvalid (C : Ctx) (col : Column) : Bool :=
-  match mroOf C.tbl col.cls with
+  match resolveSpec C.tbl col.cls with
   | none => true
-  | some m =>
-    match (hookChain C.tbl m "validate").head? with
-    | some "MafCustomColumnRecord" =>
-      if isNullValue C m col.value then false
-      else runValidate C (elemInvalidOf C m) m (hookChain C.tbl m "__validate__") col.value
-    | _ => false
+  | some sp => sp.valueInvalid col.value
 
 def isSubclass (C : Ctx) (cls sup : String) : Bool :=
   match mroOf C.tbl cls with
